@@ -197,6 +197,7 @@ PROPS = {
                         "atom serial numbers are not stated by an mmCIF row; the specification numbers the atoms of a model from 0 in row order, as the reader does"],
     },
     "C03": {
+        "entries": ["C03", "C18"],
         "translators": ["t2a", "t2b", "t2c"],
         "count": {"quick": 60, "thorough": 600},
         "rule": "structures built through the public API (1-3 models of the same shape, chains, residues with insertion codes and negative "
